@@ -243,14 +243,16 @@ fn hole_spec(kind: SiteKind) -> BoxedStrategy<HoleSpec> {
             vspec(false).prop_map(|v| if matches!(v, VSpec::D(_)) { VSpec::I(7) } else { v }),
             prop_oneof![Just(Place::Local), Just(Place::ExtraLocal)],
             flags,
+            prop::bool::weighted(0.3),
         )
-            .prop_map(|(value, place, (flags, spec))| HoleSpec { value, place, flags, spec })
+            // raw identifiers only where the hole is not also defined by a trailing field value
+            .prop_map(|(value, place, (flags, spec), raw)| HoleSpec { value, place, flags, spec, raw: raw && place == Place::Local })
             .boxed(),
         _ => prop_oneof![
-            (vspec(true), Just(Place::Inline), flags.clone()),
-            (vspec(false), prop_oneof![Just(Place::Local), Just(Place::Extra), Just(Place::ExtraLocal)], flags),
+            (vspec(true), Just(Place::Inline), flags.clone(), prop::bool::weighted(0.3)),
+            (vspec(false), prop_oneof![Just(Place::Local), Just(Place::Extra), Just(Place::ExtraLocal)], flags, prop::bool::weighted(0.3)),
         ]
-        .prop_map(|(value, place, (flags, spec))| HoleSpec { value, place, flags, spec })
+        .prop_map(|(value, place, (flags, spec), raw)| HoleSpec { value, place, flags, spec, raw: raw && matches!(place, Place::Inline | Place::Local) })
         .boxed(),
     }
 }
@@ -288,6 +290,10 @@ fn check_site(case: &SiteCase, cx: &mut Cx, results: &std::collections::BTreeMap
     });
     cx.class_if(text.contains('{') || text.contains('}'), "site:escaped-braces");
     cx.class_if(holes.iter().any(|h| h.flags_text().is_some()), "site:format-flags");
+    cx.class_if(holes.iter().any(|h| h.raw), "hole:raw-identifier");
+    cx.class_if(holes.iter().any(|h| h.raw && h.flags_text().is_some()), "hole:raw-identifier-with-fmt");
+    cx.class_if(holes.iter().any(|h| h.raw && h.place == Place::Inline), "hole:raw-identifier-with-expression");
+    cx.class_if(holes.iter().any(|h| h.raw && matches!(h.value, VSpec::D(_))), "hole:raw-identifier-as_debug");
     let fills: Vec<char> = holes.iter().filter_map(|h| h.spec.as_ref().and_then(|s| s.fill_char())).collect();
     cx.class_if(fills.contains(&':'), "fmt:fill-colon");
     // ... and the padding is visible: the width exceeds the value's plain display length
@@ -377,6 +383,8 @@ fn main() {
                 s.require(c, 8);
             }
             // format specs whose fill is a character that means something elsewhere in the spec grammar
+            s.require("hole:raw-identifier", 6);
+            s.require("hole:raw-identifier-with-fmt", 3);
             s.require("fmt:fill-colon", 4);
             s.require("fmt:fill-colon-visible-padding", 2);
             s.require("fmt:fill-special", 6);
